@@ -53,7 +53,13 @@ fn main() {
                 .min(16)
         });
     let ctx = Ctx::from_env();
-    for p in [&ctx.hdwallet, &ctx.threadsim, &ctx.shim] {
+    if !ctx.threadsim.exists() {
+        // bin/build could not compile the E2 executor against this tree (see its note): every
+        // scenario runs on the real binary (E1/E3)
+        println!("note: engine E2 is unavailable for this tree; threaded scenarios use engine E3 only");
+        simv::exec::E2_UNUSABLE.store(1000, std::sync::atomic::Ordering::Relaxed);
+    }
+    for p in [&ctx.hdwallet, &ctx.libprobe, &ctx.shim] {
         if !p.exists() {
             eprintln!(
                 "harness error: {} is missing (run /verif/bin/setup)",
